@@ -12,6 +12,7 @@ import engine_pol as pol
 import engine_env as env4mod
 import engine_sup as sup
 import engine_env as env
+import engine_r5 as r5
 
 PROPS = {
     "C02": {
@@ -106,7 +107,7 @@ PROPS = {
         "assumptions": [],
     },
     "C16": {
-        "rules": [("FLW-3", flw.flw3)],
+        "rules": [("FLW-3", flw.flw3), ("NRM-1", r5.nrm1)],
         "explanation": "Decides the sibling-agreement and provenance clauses of C16: apply_rules_trace enumerates groups and, per word, the group's rules front to back "
                        "with the step res[j] = rule.apply(res[j].clone())? and no early exit, i.e. projected on one word the same rule sequence as the runner; a Change "
                        "is built only when the whole phrase differs from the snapshot taken before the group, with rule_index = the group loop's enumerate index and "
@@ -117,7 +118,7 @@ PROPS = {
     },
     "C19": {
         "controls": ["CLI-1"],
-        "rules": [("CLI-1", cli.cli1), ("CLI-4", cli.cli4), ("TAB-7", cli.tab7)],
+        "rules": [("CLI-1", cli.cli1), ("CLI-4", cli.cli4), ("TAB-7", cli.tab7), ("CLI-6", r5.cli6), ("CLI-7", r5.cli7)],
         "explanation": "Decides the wiring and file-format clauses of C19: no call (lib, bin) passes same-typed arguments crosswise to each other's parameters "
                        "(names of arguments vs parameters); in `asca run` the four components of get_input reach asca::run's parameters of the same role and the "
                        "value printed / written is the Ok payload of that call joined by LINE_ENDING; writers and readers of .rsca/.alias/.wsca use the same sigils "
@@ -152,7 +153,7 @@ PROPS = {
     },
     "C09": {
         "controls": ["BIT"],
-        "rules": [("RT-1", tab2.rt1), ("RT-2", tab2.rt2), ("TAB-6", tab2.tab6), ("FLW-6", flw2.flw6), ("BIT-2", bit.bit2), ("FLW-7", flw2.flw7)],
+        "rules": [("RT-1", tab2.rt1), ("RT-2", tab2.rt2), ("TAB-6", tab2.tab6), ("FLW-6", flw2.flw6), ("BIT-2", bit.bit2), ("FLW-7", flw2.flw7), ("RT-3", r5.rt3)],
         "explanation": "Decides three necessary conditions of the text round trip, none of them the round trip itself. RT-1 writer/reader agreement of the suprasegmental notation: "
                        "Word::render_normal writes primary stress as the mark Word::setup reads as Primary, secondary likewise, opens every non-initial unstressed syllable with '.', "
                        "writes a segment equal to its predecessor as 'ː' (read back as a repetition of the last segment) and a non-zero tone as its decimal digits (parsed back into "
@@ -165,7 +166,7 @@ PROPS = {
     },
     "C10": {
         "controls": ["PUR-3"],
-        "rules": [("PUR-3", pur.pur3), ("PUR-4", pur.pur4), ("PUR-5", pur.pur5)],
+        "rules": [("PUR-3", pur.pur3), ("PUR-4", pur.pur4), ("PUR-5", pur.pur5), ("RT-3", r5.rt3)],
         "explanation": "Decides the statelessness / grouping clause of C10: applying a rule list is a left fold `word = rule.apply(word)?` over groups and rules in "
                        "order with no early exit, no adaptor and no other loop-carried state (PUR-5); the step depends only on its arguments: no global state "
                        "(PUR-3), binding tables fresh or reset (PUR-4). Hence regrouping and empty groups cannot matter.",
@@ -202,7 +203,7 @@ PROPS = {
     },
     "C13": {
         "controls": ["SYN-1", "SYN-2"],
-        "rules": [("TAB-5", tab2.tab5), ("TAB-6", tab2.tab6), ("TAB-6b", tab2.tab6b), ("SYN-1", tab2.syn1), ("SYN-2", tab2.syn2)],
+        "rules": [("TAB-5", tab2.tab5), ("TAB-6", tab2.tab6), ("TAB-6b", tab2.tab6b), ("SYN-1", tab2.syn1), ("SYN-2", tab2.syn2), ("NRM-1", r5.nrm1)],
         "explanation": "Decides the table and follow-set clauses of C13: the feature-name synonym tables of the two lexers are equal maps, without "
                        "duplicate or unreachable spellings and covering FEAT_VARIANTS; word-level respellings (Word::to_ipa, Word::new replace chains, "
                        "lexer cur_as_ipa siblings, americanist inverse in render_normal, render marks ⊆ Word::setup tests) equal the manual's tables; every character of the word text that enters a grapheme lookup buffer in Word::fill_segments passes through Word::to_ipa (TAB-6b: the aliases apply at every position, also after `^`); "
